@@ -7,35 +7,49 @@
 (* The whole of TryToIncrement runs under the per-key mutex, so it is one      *)
 (* atomic action; concurrency is an arbitrary order of these actions.          *)
 (*                                                                             *)
-(* StrictAfter = TRUE models the reset test as it was at the pinned commit     *)
-(* (`currentTime.After(windowEndTime)`): a request exactly on a grid boundary  *)
-(* is counted in the old window.  StrictAfter = FALSE is the repaired test.    *)
+(* Deliberate deviations, each a CONSTANT so that TLC can show the model       *)
+(* distinguishes them (non-vacuity) - FALSE/FALSE is the repaired code:        *)
+(*  StrictAfter : reset test `currentTime.After(windowEndTime)` (pinned commit)*)
+(*                - a request exactly on a grid boundary stays in the old window*)
+(*  StaleWindow : a changed window length does not restart the window (pinned  *)
+(*                commit) - the old window end is kept until it passes         *)
 EXTENDS Integers, Sequences, FiniteSets
 
-CONSTANTS Remedy, Group, W, Allowed, Pct, DefBehav, DefPct, MaxNow, Steps, StrictAfter
+CONSTANTS Remedy, Group, W0, WChoices, Allowed, Pct, DefBehav, DefPct, MaxNow, Steps,
+          StrictAfter, StaleWindow
 
-VARIABLES now, counter, wend, last
+VARIABLES now, W, counter, wend, wsize, last
 
-ivars == <<now, counter, wend, last>>
+ivars == <<now, W, counter, wend, wsize, last>>
 
 Ceil100(x) == (x + 99) \div 100
 
 Init ==
-    /\ now = 1                 \* the epoch instant itself is not a reachable "now"
+    /\ now = 1
+    /\ W = W0
     /\ counter = [r \in Remedy |-> [g \in Group |-> 0]]
     /\ wend = [r \in Remedy |-> [g \in Group |-> 0]]      \* epochTime
+    /\ wsize = [r \in Remedy |-> [g \in Group |-> 0]]     \* windowData.WindowSize of the last call
     /\ last = [ev |-> "init"]
 
 Advance(d) ==
     /\ now + d <= MaxNow
     /\ now' = now + d
     /\ last' = [ev |-> "adv", d |-> d]
-    /\ UNCHANGED <<counter, wend>>
+    /\ UNCHANGED <<W, counter, wend, wsize>>
 
-\* ensureWindowIsUpdated: result <<counter, windowEnd>> after the reset test
+\* apply_policies with another window length: only the remedy configuration changes
+SetW(r, w) ==
+    /\ w \in WChoices /\ w # W[r]
+    /\ W' = [W EXCEPT ![r] = w]
+    /\ last' = [ev |-> "setw", r |-> r, w |-> w]
+    /\ UNCHANGED <<now, counter, wend, wsize>>
+
+\* TryToIncrement: <<counter, windowEnd>> after the window-length test and ensureWindowIsUpdated
 Ensure(r, g) ==
-    LET after == IF StrictAfter THEN now > wend[r][g] ELSE now >= wend[r][g]
-    IN  IF after THEN <<0, (now \div W[r] + 1) * W[r]>> ELSE <<counter[r][g], wend[r][g]>>
+    LET end0 == IF ~StaleWindow /\ wsize[r][g] # W[r] THEN 0 ELSE wend[r][g]
+        after == IF StrictAfter THEN now > end0 ELSE now >= end0
+    IN  IF after THEN <<0, (now \div W[r] + 1) * W[r]>> ELSE <<counter[r][g], end0>>
 
 Ratio100(r, g) ==      \* quotaAllocationRatio * 100, or -1 when the default behaviour answers
     IF DefBehav[r] = "none" THEN 100
@@ -48,35 +62,23 @@ KeyOf(r, g) == IF DefBehav[r] = "none" THEN NoGroup ELSE g
 
 Request(r, gh) ==
     LET g == KeyOf(r, gh) IN
-    /\ UNCHANGED now
+    /\ UNCHANGED <<now, W>>
     /\ IF Ratio100(r, g) = -1
        THEN /\ last' = [ev |-> "req", r |-> r, g |-> gh,
                         out |-> IF DefBehav[r] = "block" THEN "block" ELSE "pass"]
-            /\ UNCHANGED <<counter, wend>>
+            /\ UNCHANGED <<counter, wend, wsize>>
        ELSE LET e == Ensure(r, g)
                 max == Ceil100(Allowed[r] * Ratio100(r, g))
-            IN  IF e[1] >= max
-                THEN /\ counter' = [counter EXCEPT ![r][g] = e[1]]
-                     /\ wend' = [wend EXCEPT ![r][g] = e[2]]
-                     /\ last' = [ev |-> "req", r |-> r, g |-> gh, out |-> "block"]
-                ELSE /\ counter' = [counter EXCEPT ![r][g] = e[1] + 1]
-                     /\ wend' = [wend EXCEPT ![r][g] = e[2]]
-                     /\ last' = [ev |-> "req", r |-> r, g |-> gh, out |-> "pass"]
+                pass == e[1] < max
+            IN  /\ counter' = [counter EXCEPT ![r][g] = IF pass THEN e[1] + 1 ELSE e[1]]
+                /\ wend' = [wend EXCEPT ![r][g] = e[2]]
+                /\ wsize' = [wsize EXCEPT ![r][g] = W[r]]
+                /\ last' = [ev |-> "req", r |-> r, g |-> gh, out |-> IF pass THEN "pass" ELSE "block"]
 
 Next ==
     \/ \E d \in Steps : Advance(d)
+    \/ \E r \in Remedy, w \in WChoices : SetW(r, w)
     \/ \E r \in Remedy, g \in Group : Request(r, g)
 
 ISpec == Init /\ [][Next]_ivars
-
--------------------------------------------------------------------------------
-\* Refinement: I implements P under  win = index of the window ending at wend, cnt = counter
-P == INSTANCE ThrottleP WITH
-        win <- [r \in Remedy |-> [g \in Group |-> (wend[r][g] \div W[r]) - 1]],
-        cnt <- counter
-
-Refines == P!Spec
-PerWindow == P!PerWindow
-Isolation == P!Isolation
-Exact == P!Exact
 ================================================================================
